@@ -273,3 +273,24 @@ pub fn preflight(entry: &Entry, inputs: &[Vec<V>], mbl: u8, rep: &mut Report) ->
     }
     keep
 }
+
+/// `--replay` of a witness written by `one_attack`: the same base input and target instance.
+pub fn replay_extra(entry: &Entry, base: &Vec<V>, target: &[F], ood: bool, mbl: u8, thorough: bool, seed: u64, rep: &mut Report) -> ExtraStats {
+    let mut st = ExtraStats::default();
+    let rel = OpRel(entry.clone());
+    let Ok(k) = catch_any(|| MidnightCircuit::new(&rel, Value::unknown(), Value::unknown(), Some(mbl)).min_k()) else { return st };
+    let mut rng = rng_for(seed, &format!("extra-{}", entry.kind.label()));
+    let n_diff = entry.reference(base).map(|b| b.iter().zip(target).filter(|(x, y)| x != y).count()).unwrap_or(0);
+    let budget = if n_diff > 12 {
+        ArsBudget { restarts: 14, nodes_per_restart: if thorough { 6000 } else { 2500 }, max_changed: 4096 }
+    } else if thorough {
+        ArsBudget::thorough()
+    } else {
+        ArsBudget::quick()
+    };
+    let ex = Extra { base: base.clone(), target: target.to_vec(), why: "replayed target instance", wide: n_diff > 12 };
+    let fam = if ood { Family::Ood } else { Family::Alt };
+    rep.nontrivial(&(entry.name(), "replay"));
+    one_attack(entry, &rel, k, mbl, &ex, &fam, &budget, &mut rng, &mut st, rep);
+    st
+}
